@@ -78,10 +78,6 @@ def check_colouring(space, out, label):
                     return False
     if shared_pairs:
         out.probe("element_pairs_sharing_a_dof", shared_pairs)
-    for e in support:
-        if cmap[e] < 0:
-            out.violate("colouring_uncoloured_support_element", space=label, element=e)
-            return False
     sorted_indices, indexptr = space.get_elements_by_color()
     batch_of = {}
     for c in range(len(indexptr) - 1):
